@@ -72,6 +72,11 @@ CHECKS = {
   "Grammar-derived valid MAIL/RCPT lines carry their expected mailbox and option values by construction and are compared field by field with what the recording backend received (unset fields must be zero); every single-point mutation of seed lines, all short strings over ten syntactically significant characters used as the path, and a table of malformed / disabled-extension parameters are classified by ref.ClassifyLine, and the definitely-invalid ones must be answered 5xx without any backend call. All 32 extension-flag settings are used.",
   "The verdict is relative to the harness's conservative reading of RFC 5321 4.1.2 and the extension RFCs; lenient forms are deliberately unjudged.",
   "DESIGN.md section 5 C11"),
+ "C13": ("exploration",
+  "runtime monitoring: unique-token statuses and a per-address FIFO reference attribution over exhaustively enumerated recipient lists and status-call sequences; state-based deadlock detection",
+  "For all 30 recipient lists of length <=4 over two addresses, every sequence of SetStatus calls within the multiplicities, three timings, both return values, five panic/misuse kinds, three transfer forms, both backend kinds, refused recipients in between and a second transaction with a different recipient list on the same connection, the real LMTP server's final replies are compared with the reference attribution (count, order, recipient named, code and unique token). A deadlock is reported from state (backend returned, client idle, server neither reading nor writing, corroborated by the goroutine table), never from elapsed time alone.",
+  "Known finding C13:bdat-last-early-failure-single-reply; statuses set after LMTPData returned violate the backend contract and their effect is not judged.",
+  "DESIGN.md section 5 C13"),
 }
 
 NOT_APPLICABLE = {
